@@ -151,7 +151,7 @@ int SimulateF100L::run(int max_cycles, int step)
         int cycles_min,cycles_max;
         int num, count;
 
-        num = memory->read8(pc_current);
+        num = memory->read16(pc_current);
 
         count = disasm_f100_l(
           memory,
@@ -169,7 +169,8 @@ int SimulateF100L::run(int max_cycles, int step)
         else if (pc_current == pc) { printf("> "); }
         else { printf("  "); }
 
-        printf("0x%04x: 0x%04x %-40s\n", pc_current, num, instruction);
+        // pc_current counts bytes, the listing shows word addresses.
+        printf("0x%04x: 0x%04x %-40s\n", pc_current / 2, num, instruction);
 
         n = n + count;
         pc_current += 2;
@@ -180,9 +181,9 @@ int SimulateF100L::run(int max_cycles, int step)
           if (pc_current == break_point * 2) { printf("*"); }
           else { printf(" "); }
 
-          num = memory->read8(pc_current);
-          printf("  0x%04x: 0x%02x\n", pc_current, num);
-          pc_current += 1;
+          num = memory->read16(pc_current);
+          printf("  0x%04x: 0x%04x\n", pc_current / 2, num);
+          pc_current += 2;
           count -= 2;
         }
       }
